@@ -245,6 +245,24 @@ def run(tier, seed):
                 bad = [r for r in rets(mi) if r.block.id != c.block.id and F.reaches_avoiding(0, r.block.id, cut)]
                 rep.check(rid, not bad, "the envelope test is skipped only for length < 128", c.where(),
                           None if not bad else "a member of 128 bytes or more can bypass the envelope test: its MacBinary header would be extracted as file contents", function=mi.cname, obj="threshold")
+        # ---- R7b what counts as an envelope --------------------------------------------------------------------------------------
+        rid = rep.rule("R7b", "is_macbinary_header accepts a block only if its name field equals the member's file name (same length, same bytes), the version byte is 0, "
+                              "the fork lengths plus the 128-byte header, rounded up to 128, equal the member length", 4)
+        ih = rep.need(rid, mod.fn("is_macbinary_header"), "function is_macbinary_header")
+        if ih:
+            from ..rules import require_on_success
+            fname = ("load", ("field", HDR, "filename", ("param", 1)))
+            nlen = ("load", ("gep", ("param", 0), [1]))
+            require_on_success(rep, rid, ctx, ih, [
+                ("version byte == 0", ("eq", ("load", ("or", ("param", 0), ("gep", ("param", 0), [0]))), 0)),
+                ("name length == strlen(member name)", ("eq", nlen, ("call", "strlen", [fname]))),
+                ("name bytes equal (memcmp over that length == 0)", ("eq", ("call", "memcmp", [("gep", ("param", 0), [2]), fname, ANY]), 0)),
+            ])
+            # the memcmp length is the name-length byte
+            Mi = Matcher(ih)
+            for c in ih.calls("memcmp"):
+                rep.check(rid, Mi.match(nlen, c.ops[2], {}) is not None, "the names are compared over the envelope's name length", c.where(), None, function=ih.cname, obj="memcmp-len")
+
         # ---- R8 wildcard matcher -------------------------------------------------------------------------------------------------
         rid = rep.rule("R8", "match_glob conforms to the glob transducer: '*' tries the rest of the pattern at the same string position and else skips one string byte; "
                              "'?' or an equal stored byte advances both; anything else is a mismatch; at the end of the string trailing '*'s are passed and the verdict is pattern == NUL", 6)
